@@ -151,7 +151,8 @@ Theorem C09_fblamka_from_source : forall x y, gen_fblamka x y = fblamka x y.
 Proof. exact gen_fblamka_is_model. Qed.
 
 Theorem C09_verify_iff : forall stored salt hl ops mem alg pwd,
-  verify stored salt hl ops mem alg pwd = Ok tt <-> hash_with_salt pwd salt hl ops mem alg = Ok stored.
+  verify stored salt hl ops mem alg pwd = Ok tt <->
+  (Z.of_nat (length stored) = hl /\ hash_with_salt pwd salt (length stored) ops mem alg = Ok stored).
 Proof. exact verify_iff. Qed.
 
 (* RFC 9106 section 5.3 (Argon2id) and 5.2 (Argon2i) test vectors: t = 3, m = 32 KiB, p = 4,
